@@ -18,49 +18,161 @@ or `prev_tokens`: it tracks pending tokens with a "not yet in the history" flag.
 -/
 namespace RtenVerif.Generator
 
-/-- **C32.T1a** With a KV cache, the position ids the model sees over the whole history are
-`0, 1, 2, …` with no gap and no repeat (call boundaries included). -/
+/-- **C32.T1a** With a KV cache, the position ids seen by the successful model calls over the
+whole history are `0, 1, 2, …` with no gap and no repeat (call boundaries included) — also
+when some `Model::run` calls fail in between. -/
 theorem c32_T1_positions_contiguous (ops : List Op) :
-    positions (run .tracked true ops).2 = List.range (fed (run .tracked true ops).2).length := by
+    positions (okCalls (run .tracked true ops).2) =
+      List.range (fed (okCalls (run .tracked true ops).2)).length := by
   have h := (inv_run true ops).kvOn rfl
-  rw [positions_of_logOk _ 0 0 h.2.2, List.range_eq_range']
+  rw [positions_okCalls _ LogSt.init h.2.2.2, List.range_eq_range']
+  rfl
 
-/-- **C32.T1b** Each model call receives exactly the tokens pending at that moment (with a
-KV cache they then stop being pending — so every pending token is fed exactly once; without
-one the whole sequence is resubmitted), and the generator's pending tokens are the
-specification's. -/
+/-- **C32.T1b** Each model call receives exactly the tokens pending at that moment.  After a
+successful call of a KV-cache model they stop being pending — so every pending token is fed
+to exactly one successful call; after a failed call they all stay pending (and are fed again
+by the next call); without a KV cache the whole sequence stays pending.  The generator's
+pending tokens are the specification's. -/
 theorem c32_T1_each_pending_token_fed_once (hasKv : Bool) (ops : List Op) :
-    (run .tracked hasKv ops).2.map (·.toks) = (Spec.run hasKv ops).calls ∧
+    (run .tracked hasKv ops).2.map (fun c => (c.toks, c.ok)) = (Spec.run hasKv ops).calls ∧
     (run .tracked hasKv ops).1.inputIds = (Spec.run hasKv ops).pend.map (·.1) := by
   have h := inv_run hasKv ops
   exact ⟨h.calls, by rw [h.pend, flagged_toks]⟩
 
-/-- **C32.T1c** With a KV cache, call `k` starts at the position equal to the number of
-tokens fed by calls `0..k-1`. -/
-theorem c32_T1_call_start (ops : List Op) (k : Nat) (hk : k < (run .tracked true ops).2.length) :
-    ((run .tracked true ops).2)[k].start = (fed ((run .tracked true ops).2.take k)).length := by
+/-- **C32.T2/T4 (all histories, failures included)** Call `k` of a KV-cache model meets the
+expectation `logRun` computes from calls `0..k-1`: it starts at the number of tokens fed by
+the successful calls so far, `attention_mask` covers positions `0..start+len`,
+`use_cache_branch` is `start ≠ 0`, the self-attention cache is the one returned by call `k-1`
+(none at all if call `k-1` failed), and the encoder cache is the one returned by the last
+successful call that started at position 0 (passed through unchanged otherwise). -/
+theorem c32_T2_calls_meet_expectation (ops : List Op) (k : Nat)
+    (hk : k < (run .tracked true ops).2.length) :
+    let log := (run .tracked true ops).2
+    let ex := logRun LogSt.init (log.take k)
+    log[k].start = ex.pos ∧ log[k].cacheIn = some ex.held ∧
+    log[k].attn = ex.pos + log[k].toks.length ∧ log[k].flag = (ex.pos != 0) ∧
+    log[k].encIn = ex.enc := by
   have h := (inv_run true ops).kvOn rfl
-  simpa using (logOk_get _ 0 0 h.2.2 k hk).1
+  exact logRun_get _ LogSt.init h.2.2.2 k hk
 
-/-- **C32.T2** The cache passed to call `k` is the one returned by call `k-1` (id `k`; id 0 is
-the generator's initial empty cache) and it holds exactly the tokens fed so far; the cache
-held after the history is the one returned by the last call. -/
-theorem c32_T2_cache_handoff (ops : List Op) :
+/-- **C32.T1c** Error-free histories with a KV cache: call `k` starts at the position equal to
+the number of tokens fed by calls `0..k-1`. -/
+theorem c32_T1_call_start (ops : List Op) (hops : ∀ op ∈ ops, op.isFail = false) (k : Nat)
+    (hk : k < (run .tracked true ops).2.length) :
+    ((run .tracked true ops).2)[k].start = (fed ((run .tracked true ops).2.take k)).length := by
+  have h := c32_T2_calls_meet_expectation ops k hk
+  have hall := runFrom_all_ok .tracked ops (State.init true) hops
+  have hex := logRun_all_ok ((run .tracked true ops).2.take k) LogSt.init
+    (fun c hc => hall c (List.mem_of_mem_take hc)) 0 rfl
+  simp only [] at h
+  rw [h.1, hex.2]; simp [LogSt.init]
+
+/-- **C32.T2** Error-free histories: the cache passed to call `k` is the one returned by call
+`k-1` (id `k`; id 0 is the generator's initial empty cache) and it holds exactly the tokens
+fed so far; the cache held after the history is the one returned by the last call. -/
+theorem c32_T2_cache_handoff (ops : List Op) (hops : ∀ op ∈ ops, op.isFail = false) :
     (∀ k (hk : k < (run .tracked true ops).2.length),
       ((run .tracked true ops).2)[k].cacheIn =
-        some (k, (fed ((run .tracked true ops).2.take k)).length)) ∧
+        some (some (k, (fed ((run .tracked true ops).2.take k)).length))) ∧
     (run .tracked true ops).1.kv =
-      some ((run .tracked true ops).2.length, (fed (run .tracked true ops).2).length) := by
-  have h := (inv_run true ops).kvOn rfl
-  refine ⟨fun k hk => ?_, h.1⟩
-  simpa using (logOk_get _ 0 0 h.2.2 k hk).2
+      some (some ((run .tracked true ops).2.length, (fed (run .tracked true ops).2).length)) := by
+  have hall := runFrom_all_ok .tracked ops (State.init true) hops
+  constructor
+  · intro k hk
+    have h := c32_T2_calls_meet_expectation ops k hk
+    have hex := logRun_all_ok ((run .tracked true ops).2.take k) LogSt.init
+      (fun c hc => hall c (List.mem_of_mem_take hc)) 0 rfl
+    simp only [] at h
+    rw [h.2.1, hex.1]
+    simp [LogSt.init, List.length_take, Nat.min_eq_left (Nat.le_of_lt hk)]
+  · have h := (inv_run true ops).kvOn rfl
+    have hex := logRun_all_ok (run .tracked true ops).2 LogSt.init hall 0 rfl
+    rw [h.1, hex.1]; simp [LogSt.init]
 
-/-- Without KV-cache inputs every call starts at position 0 and carries no cache. -/
+/-- **C32.T5 What a failed `Model::run` does** (either operation, any state): the pending
+tokens, their offset, `prev_tokens` and the recorded marker are untouched — nothing is lost
+and nothing is recorded twice — but the self-attention caches handed to the model are gone. -/
+theorem c32_T5_failed_run_state (r : Rule) (s : State) :
+    (step r s .processFail).st = { s with kv := s.kv.map (fun _ => none), calls := s.calls + 1 } ∧
+    (step r s .nextFail).st = { s with kv := s.kv.map (fun _ => none), calls := s.calls + 1 } ∧
+    (step r s .processFail).out = .errRun ∧ (step r s .nextFail).out = .errRun :=
+  ⟨rfl, rfl, rfl, rfl⟩
+
+/-- **C32.T5b** The call after a failed call is handed the same tokens' positions again
+(same start) but **no** self-attention cache. -/
+theorem c32_T5_call_after_failed_run (ops : List Op) (k : Nat)
+    (hk : k + 1 < (run .tracked true ops).2.length)
+    (hfail : ((run .tracked true ops).2)[k].ok = false) :
+    ((run .tracked true ops).2)[k + 1].cacheIn = some none ∧
+    ((run .tracked true ops).2)[k + 1].start = ((run .tracked true ops).2)[k].start := by
+  have h1 := c32_T2_calls_meet_expectation ops (k + 1) hk
+  have h0 := c32_T2_calls_meet_expectation ops k (by omega)
+  simp only [] at h0 h1
+  have ht : (run .tracked true ops).2.take (k + 1) =
+      (run .tracked true ops).2.take k ++ [((run .tracked true ops).2)[k]] := by
+    have hk' : k < (run .tracked true ops).2.length := by omega
+    rw [List.take_add_one, List.getElem?_eq_getElem hk']; rfl
+  rw [ht, logRun_append] at h1
+  rw [h1.1, h1.2.1, h0.1]
+  simp [logStep, hfail]
+
+/-- **C32.T2 does not survive a failed run**: in `with_prompt [1]; process_prompt;
+append_prompt [2]; process_prompt (run fails); process_prompt` the third call is handed no
+cache although call 0 returned one, and the cache the model returns afterwards holds 1 token
+although 2 were fed.  (The failing model is outside the property's quantifier; the tensors
+were moved into the failed call, so the generator cannot restore them.) -/
+theorem c32_T2_after_failed_run_false :
+    ¬ ∀ (ops : List Op) (k : Nat) (hk : k < (run .tracked true ops).2.length),
+        ((run .tracked true ops).2)[k].cacheIn =
+          some (some (k, (fed (okCalls ((run .tracked true ops).2.take k))).length)) := by
+  intro h
+  have := h [.withPrompt [1], .process, .append [2], .processFail, .process] 2 (by decide)
+  revert this; decide
+
+example :
+    run .tracked true [.withPrompt [1], .process, .append [2], .processFail, .process] =
+    ({ inputIds := [], offset := 2, prev := [1, 2], recorded := 0, kv := some (some (3, 1)),
+       enc := 1, calls := 3 },
+     [⟨[1], 0, some (some (0, 0)), false, 1, false, 0, true⟩,
+      ⟨[2], 1, some (some (1, 1)), false, 2, true, 1, false⟩,
+      ⟨[2], 1, some none, false, 2, true, 1, true⟩]) := by decide
+
+/-- Without KV-cache inputs every call starts at position 0 with a mask over exactly the
+tokens fed, and carries no cache. -/
 theorem c32_T1_no_kv_calls (ops : List Op) (k : Nat)
     (hk : k < (run .tracked false ops).2.length) :
-    ((run .tracked false ops).2)[k].start = 0 ∧ ((run .tracked false ops).2)[k].cacheIn = none := by
+    ((run .tracked false ops).2)[k].start = 0 ∧ ((run .tracked false ops).2)[k].cacheIn = none ∧
+    ((run .tracked false ops).2)[k].attn = ((run .tracked false ops).2)[k].toks.length ∧
+    ((run .tracked false ops).2)[k].flag = false := by
   have h := (inv_run false ops).kvOff rfl
   exact logOkNoKv_get _ h.2.2 k hk
+
+/-- **C32.T7 Models without KV cache are fed the whole recorded history again.**  After
+`with_prompt p` and any operations that do not discard pending tokens (`append_prompt`,
+`process_prompt`, `next`, failing runs), the tokens handed to the next model call are exactly
+`prev_tokens` as recorded by that call. -/
+theorem c32_T7_no_kv_refeeds_history (p : List Nat) (ops : List Op)
+    (hd : ∀ op ∈ ops, op.discards = false) (lg : Bool) :
+    let s := (run .tracked false (.withPrompt p :: ops)).1
+    (generateImpl .tracked s lg).2.toks = (generateImpl .tracked s lg).1.prev ∧
+    (generateImpl .tracked s lg).2.start = 0 := by
+  have h0 : Refeed (step .tracked (State.init false) (.withPrompt p)).st := by
+    simp [Refeed, step, State.init]
+  have h := refeed_runFrom ops _ h0 hd
+  have hs : (run .tracked false (.withPrompt p :: ops)).1 =
+      (runFrom .tracked (step .tracked (State.init false) (.withPrompt p)).st ops).1 := rfl
+  simp only [hs]
+  obtain ⟨hkv, hrec, hprev⟩ := h
+  have hinv := (inv_runFrom false ops _ _ _ (inv_step false _ _ _ (.withPrompt p) (inv_init false))).kvOff rfl
+  simp [generateImpl, hkv, callOf, hprev, hinv.2.1]
+
+/-- … but `clear_prompt` (or a second `with_prompt`) makes such a model forget the
+conversation: the next call sees only the new tokens, at position 0, while `prev_tokens`
+still holds everything. -/
+theorem c32_T7_no_kv_clear_forgets :
+    let s := (run .tracked false [.withPrompt [1, 2], .next 3, .clear, .append [4]]).1
+    (generateImpl .tracked s false).2.toks = [4] ∧ (generateImpl .tracked s false).2.start = 0 ∧
+    (generateImpl .tracked s false).1.prev = [1, 2, 3, 4] := by decide
 
 /-- **C32.T3** `prev_tokens` equals every token submitted to or produced by the model, in
 order, each once — for the current code (`Rule.tracked`). -/
@@ -93,46 +205,55 @@ theorem c32_legacy_same_calls (hasKv : Bool) (ops : List Op) :
     (run .legacy hasKv ops).2 = (run .tracked hasKv ops).2 := by
   -- states agree on every field except `prev`/`recorded`
   suffices H : ∀ (ops : List Op) (s s' : State),
-      s.inputIds = s'.inputIds → s.offset = s'.offset → s.kv = s'.kv → s.calls = s'.calls →
-      (runFrom .legacy s ops).2 = (runFrom .tracked s' ops).2 from
-    H ops _ _ rfl rfl rfl rfl
+      s.inputIds = s'.inputIds → s.offset = s'.offset → s.kv = s'.kv → s.enc = s'.enc →
+      s.calls = s'.calls → (runFrom .legacy s ops).2 = (runFrom .tracked s' ops).2 from
+    H ops _ _ rfl rfl rfl rfl rfl
   intro ops
   induction ops with
   | nil => intros; rfl
   | cons op ops ih =>
-    intro s s' h1 h2 h3 h4
+    intro s s' h1 h2 h3 h4 h5
     simp only [runFrom]
     have key : (step .legacy s op).call = (step .tracked s' op).call ∧
         (step .legacy s op).st.inputIds = (step .tracked s' op).st.inputIds ∧
         (step .legacy s op).st.offset = (step .tracked s' op).st.offset ∧
         (step .legacy s op).st.kv = (step .tracked s' op).st.kv ∧
+        (step .legacy s op).st.enc = (step .tracked s' op).st.enc ∧
         (step .legacy s op).st.calls = (step .tracked s' op).st.calls := by
       cases op <;> cases hk : s'.kv <;>
-        simp [step, generateImpl, h1, h2, h3, h4, hk] <;>
+        simp [step, generateImpl, generateFail, callOf, h1, h2, h3, h4, h5, hk] <;>
         (try split) <;> simp_all
-    obtain ⟨kc, k1, k2, k3, k4⟩ := key
-    rw [kc, ih _ _ k1 k2 k3 k4]
+    obtain ⟨kc, k1, k2, k3, k4, k5⟩ := key
+    rw [kc, ih _ _ k1 k2 k3 k4 k5]
 
 /-! ## Non-vacuity: a chat-style history exercising every operation -/
 
 /-- A concrete history with a KV cache: prompt, generate, append (chat), clear, empty-filter
-error, `with_prompt` mid-history.  Calls, positions, cache hand-off and `prev_tokens`. -/
+error, `with_prompt` mid-history, a failing run.  Calls (tokens, start, cache, logits, mask
+length, cache flag, encoder cache, success), final state and `prev_tokens`. -/
 example :
     run .tracked true
       [.withPrompt [1, 2], .next 3, .append [4, 5], .next 6, .clear, .append [7], .process,
-       .append [8], .nextEmpty, .withPrompt [9], .next 10] =
+       .append [8], .nextEmpty, .withPrompt [9], .nextFail, .next 10] =
     ({ inputIds := [10], offset := 8, prev := [1, 2, 3, 4, 5, 6, 7, 8, 9, 10], recorded := 1,
-       kv := some (5, 8), calls := 5 },
-     [⟨[1, 2], 0, some (0, 0), true⟩, ⟨[3, 4, 5], 2, some (1, 2), true⟩,
-      ⟨[7], 5, some (2, 5), false⟩, ⟨[8], 6, some (3, 6), true⟩, ⟨[9], 7, some (4, 7), true⟩]) := by
+       kv := some (some (6, 1)), enc := 1, calls := 6 },
+     [⟨[1, 2], 0, some (some (0, 0)), true, 2, false, 0, true⟩,
+      ⟨[3, 4, 5], 2, some (some (1, 2)), true, 5, true, 1, true⟩,
+      ⟨[7], 5, some (some (2, 5)), false, 6, true, 1, true⟩,
+      ⟨[8], 6, some (some (3, 6)), true, 7, true, 1, true⟩,
+      ⟨[9], 7, some (some (4, 7)), true, 8, true, 1, false⟩,
+      ⟨[9], 7, some none, true, 8, true, 1, true⟩]) := by
   decide
 
-/-- The same history without KV cache: everything is resubmitted from position 0. -/
+/-- The same kind of history without KV cache: everything is resubmitted from position 0. -/
 example :
-    (run .tracked false [.withPrompt [1, 2], .next 3, .append [4], .next 5]) =
-    ({ inputIds := [1, 2, 3, 4, 5], offset := 0, prev := [1, 2, 3, 4, 5], recorded := 5,
-       kv := none, calls := 2 },
-     [⟨[1, 2], 0, none, true⟩, ⟨[1, 2, 3, 4], 0, none, true⟩]) := by
+    (run .tracked false [.withPrompt [1, 2], .next 3, .append [4], .next 5]).2 =
+     [⟨[1, 2], 0, none, true, 2, false, 0, true⟩, ⟨[1, 2, 3, 4], 0, none, true, 4, false, 1, true⟩] ∧
+    (run .tracked false [.withPrompt [1, 2], .next 3, .append [4], .next 5]).1.prev = [1, 2, 3, 4, 5] := by
   decide
+
+/-- Non-vacuity of the error-free hypotheses and of `c32_T7`. -/
+example : (∀ op ∈ [Op.withPrompt [1], .next 2, .append [3], .process], op.isFail = false) ∧
+    (∀ op ∈ [Op.next 2, .append [3], .processFail, .process], op.discards = false) := by decide
 
 end RtenVerif.Generator
